@@ -239,7 +239,12 @@ func init() {
 func claimedBy(encCols map[string]tokSet, tn, field string, cols tokSet) string {
 	var names []string
 	for g, ec := range encCols {
-		if !strings.HasPrefix(g, tn+".") || g == tn+"."+field {
+		if g == tn+"."+field {
+			continue
+		}
+		// another getter of the same entity, or the same-named getter of another entity (the usual
+		// wrong-variable slip: scope's SchemaUrl for the resource's, span's dropped count for the event's)
+		if !strings.HasPrefix(g, tn+".") && !strings.HasSuffix(g, "."+field) {
 			continue
 		}
 		for cn := range ec {
